@@ -237,7 +237,13 @@ Definition std_reference (s : bytes) : option (bytes * bytes) :=
     end.
 
 (* character data of element content (attr = false) or the text of an attribute value
-   (attr = true), already cut at its delimiter and already end-of-line normalised *)
+   (attr = true), already cut at its delimiter and already end-of-line normalised.
+   Productions [14] CharData and [10] AttValue: everything that is not a reference must be a
+   character matching [2] Char, other than the less-than sign (and the ampersand); the document is
+   UTF-8, so raw characters are decoded with the strict RFC 3629 decoder above and anything that
+   is not the encoding of a Char makes the document not well-formed (None). The attribute values
+   in question are delimited by double quotes, so a raw double quote cannot be part of one.
+   The characters are reported as their UTF-8 encoding. *)
 Fixpoint std_xml_expand (fuel : nat) (attr : bool) (s : bytes) (acc : bytes) : option bytes :=
   match fuel with
   | O => None
@@ -252,8 +258,16 @@ Fixpoint std_xml_expand (fuel : nat) (attr : bool) (s : bytes) (acc : bytes) : o
         end
       else if b =? 60 then None                                   (* markup / forbidden in AttValue *)
       else if negb attr && starts_with [93; 93; 62] s then None   (* CharData excludes this sequence *)
-      else if attr && is_xml_S b then std_xml_expand f attr r (acc ++ [32])      (* 3.3.3 *)
-      else std_xml_expand f attr r (acc ++ [b])
+      else if attr && (b =? 34) then None                         (* the delimiter of the AttValue *)
+      else
+        match std_utf8_decode s with
+        | Some (cp, r') =>
+            if is_xml_char cp then
+              if attr && is_xml_S cp then std_xml_expand f attr r' (acc ++ [32])      (* 3.3.3 *)
+              else std_xml_expand f attr r' (acc ++ Utf8.utf8_encode cp)
+            else None
+        | None => None
+        end
     end
   end.
 
